@@ -400,6 +400,19 @@ def generators(thorough):
     mk_simple("stats.mk_sens_slope", lambda obj, fi, C, x, d, r: C.run(lambda: obj(x), lambda: fi(x), d, rtol=r))
     mk_simple("stats.mann_kendall_trend_1d", lambda obj, fi, C, x, d, r: C.run(lambda: obj(x), lambda: fi(x), d, rtol=r))
 
+    def mk_special(obj, fi, C):
+        """Float series with infinities and NaN (ratios to a zero reference produce them): compiled and interpreted
+        must agree on whatever the source says about them."""
+        inf, nan = np.inf, np.nan
+        for x in ([1.0, inf, 3.0, inf, 2.0], [inf, 1.0, inf, 5.0], [-inf, 2.0, -inf, 4.0, 1.0], [1.0, nan, 3.0, 2.0], [inf, -inf, 1.0, 2.0],
+                  [1.0, 2.0, inf], [nan, inf, 1.0, 2.0, inf, 7.0], [inf, inf, inf], [3.0, 1.0, 2.0, inf, inf, 0.5]):
+            for dt in ("float64", "float32"):
+                xx = np.array(x, dtype=dt)
+                C.run(lambda: obj(xx), lambda: fi(xx), f"x={xx.tolist()} {dt}", rtol=1e-5 if dt == "float32" else 1e-9)
+    for nm in ("mk_score", "mk_variance_s", "mk_sens_slope", "mann_kendall_trend_1d"):
+        prev = G[f"stats.{nm}"]
+        G[f"stats.{nm}"] = (lambda prev: (lambda obj, fi, C: (prev(obj, fi, C), mk_special(obj, fi, C))))(prev)
+
     def mk_z(obj, fi, C):
         for s in range(-21, 22):
             for vs in (1.0, 8.666666666666666, 44.333333333333336, 0.5):
